@@ -124,6 +124,41 @@ def run_case(c):
     if k == "canary":
         kind, cls, got, warns = parse(dec(i["m"]))
         return {"ok": len(got) == 1 and got[0].device_state == DeviceState.OFF}
+    if k == "via_bridge":
+        # through a real SwitcherBridge on loopback (not the parser function alone): every well-formed broadcast that arrives is
+        # one device for the callback - also when the very same bytes arrive again, and on either port
+        import asyncio
+        import socket
+        from .n_c17 import free_udp_ports
+        rnd = random.Random(i["seed"])
+
+        async def go():
+            ports = free_udp_ports(2)
+            got = []
+            b = bridge.SwitcherBridge(got.append, ports)
+            await b.start()
+            s = socket.socket(socket.AF_INET, socket.SOCK_DGRAM)
+            sent = []
+            try:
+                for j in range(i["n"]):
+                    m = bytes(gen(rnd))
+                    for rep in range(3):
+                        s.sendto(m, ("127.0.0.1", ports[(j + rep) % 2]))
+                        sent.append(m)
+                        await asyncio.sleep(0.002)
+                await asyncio.sleep(0.2)
+            finally:
+                s.close()
+                await b.stop()
+            if len(got) != len(sent):
+                return f"{len(sent)} well-formed broadcasts sent (each three times), {len(got)} devices delivered"
+            for m, dev in zip(sent, got):
+                e = expected(m)
+                if e is None or obj_canon(dev)["cls"] != e[0]:
+                    return "a delivered device does not match the broadcast it was decoded from"
+            return None
+        p = asyncio.run(go())
+        return {"ok": p is None, "evaluations": 3 * i["n"], "detail": p}
     if k == "renames":
         # the same device (same id) broadcasts again after its name / key / address changed: every broadcast is decoded on its own
         rnd = random.Random(i["seed"])
